@@ -139,3 +139,35 @@ func ZZ_C20_Transitive() {
 }
 
 var _ = math.NaN
+
+// the IPv4 value built by its constructor from ANY payload (nil, short, exactly 4 bytes,
+// longer — e.g. the 16-byte form net.ParseIP returns) equals its own decoding, alone and
+// followed by another element in a list
+//vf: paths=2000
+func ZZ_C20_IP4Constructor() {
+	n := []int{-1, 0, 3, 4, 5, 16}[zzvf.Choose(6)]
+	var payload []byte
+	if n >= 0 {
+		payload = zzvf.Bytes(n)
+	}
+	v := NewIP4Value(payload)
+	d := ReadValue(io.NewDataInputX(zzEnc20(v)))
+	zzvf.Assert(v.Equals(d), "ip4-constructor/equals-its-decoding")
+	zzvf.Assert(v.CompareTo(d) == 0, "ip4-constructor/compares-zero-with-its-decoding")
+	l := NewListValue(nil)
+	l.Add(v)
+	l.AddLong(7)
+	var dl Value
+	pv := zzvf.PanicValue(func() { dl = ReadValue(io.NewDataInputX(zzEnc20(l))) })
+	zzvf.Assert(pv == "", "ip4-constructor/list-with-following-element-decodes")
+	if pv == "" {
+		zzvf.Assert(l.Equals(dl), "ip4-constructor/list-equals-its-decoding")
+	}
+	zzvf.Reach("ip4-constructor")
+}
+
+func zzEnc20(v Value) []byte {
+	out := io.NewDataOutputX()
+	WriteValue(out, v)
+	return out.ToByteArray()
+}
